@@ -123,6 +123,78 @@ type c10View struct {
 	FPtr    map[int]string // world family index -> pointer (only families that keep a member)
 	Edit    map[int]c10Person
 	Shuffle []int // record order (indexes into the concatenation people ++ families)
+	Detail  map[int]uint32 // per person: which sub-nodes of NAME / BIRT / DEAT / SOUR this document shows
+}
+
+// c10Fact is one fact subtree of an individual.
+type c10Fact struct {
+	Tag, Value string
+	Kids       []*c10Fact
+}
+
+func c10F(tag, value string, kids ...*c10Fact) *c10Fact { return &c10Fact{tag, value, kids} }
+
+// lines / paths of a fact subtree: every node contributes its full tag path and value
+func (f *c10Fact) emit(level int, prefix string, lines *[]string, paths *[]string) {
+	l := fmt.Sprintf("%d %s", level, f.Tag)
+	if f.Value != "" {
+		l += " " + f.Value
+	}
+	*lines = append(*lines, l)
+	path := prefix + f.Tag
+	*paths = append(*paths, path+" "+f.Value)
+	for _, k := range f.Kids {
+		k.emit(level+1, path+"/", lines, paths)
+	}
+}
+
+// c10PersonFacts: the facts of a person as this document shows them. Bits of `detail` (three per
+// detailed fact: 0 = everything, 1 = bare leaf, 2..7 = a strict subset picked by the bits) decide
+// how much of NAME (GIVN, SURN, NICK), BIRT (DATE, PLAC, NOTE, SOUR > PAGE > NOTE) and DEAT
+// (DATE, PLAC, CAUS) is written, so matched pairs meet as leaf against detailed node, subset
+// against superset and detail against detail, in both directions.
+func c10PersonFacts(p c10Person, marker string, detail uint32) []*c10Fact {
+	pick := func(shift uint, kids []*c10Fact) []*c10Fact {
+		m := (detail >> shift) & 7
+		switch {
+		case m == 0 || m == 4 || m == 5: // everything (the common case)
+			return kids
+		case m == 1:
+			return nil
+		}
+		var out []*c10Fact
+		for i, k := range kids {
+			if (detail>>(shift+3+uint(i)))&1 == 1 {
+				out = append(out, k)
+			}
+		}
+		if len(out) == len(kids) && len(kids) > 0 {
+			out = out[1:]
+		}
+		return out
+	}
+	var fs []*c10Fact
+	name := fmt.Sprintf("%s /%s/", p.Given, p.Surn)
+	fs = append(fs, c10F("NAME", name, pick(0, []*c10Fact{c10F("GIVN", p.Given), c10F("SURN", p.Surn), c10F("NICK", p.Given[:2])})...))
+	fs = append(fs, c10F("SEX", p.Sex))
+	bd := fmt.Sprintf("%d %s %d", p.BD, c10Mon[p.BM-1], p.BY)
+	page := c10F("PAGE", strconv.Itoa(10+p.Key%80), c10F("NOTE", "entry "+strconv.Itoa(p.Key%7)))
+	sour := c10F("SOUR", "Parish register of "+p.Place, pick(14, []*c10Fact{page, c10F("QUAY", "2")})...)
+	fs = append(fs, c10F("BIRT", "", pick(7, []*c10Fact{c10F("DATE", bd), c10F("PLAC", p.Place), c10F("NOTE", "born in "+p.Place), sour})...))
+	if p.DY != 0 {
+		dv := ""
+		if detail>>28&1 == 1 && strings.HasPrefix(marker, "L") {
+			// `1 DEAT Y` on the left only: DEAT nodes are Equal whatever their value and the merge
+			// keeps the left node, so a right-only `Y` would be dropped by design
+			dv = "Y"
+		}
+		fs = append(fs, c10F("DEAT", dv, pick(21, []*c10Fact{c10F("DATE", strconv.Itoa(p.DY)), c10F("PLAC", p.Place), c10F("CAUS", "old age")})...))
+	}
+	if p.Occu != "" {
+		fs = append(fs, c10F("OCCU", p.Occu, pick(25, []*c10Fact{c10F("DATE", strconv.Itoa(p.BY+25))})...))
+	}
+	fs = append(fs, c10F("_MARK", marker))
+	return fs
 }
 
 // abstract description of a rendered document (what the oracle and the model work with)
@@ -195,24 +267,10 @@ func c10Render(w *c10World, v *c10View) *c10ADoc {
 		p := v.person(w, i)
 		a := c10AIndi{Ptr: v.IPtr[i], Marker: v.Side + strconv.Itoa(p.Key)}
 		var ls []string
-		add := func(path string, lines ...string) {
-			a.Facts = append(a.Facts, path)
-			ls = append(ls, lines...)
-		}
 		ls = append(ls, fmt.Sprintf("0 @%s@ INDI", a.Ptr))
-		name := fmt.Sprintf("%s /%s/", p.Given, p.Surn)
-		add("NAME "+name, "1 NAME "+name)
-		add("SEX "+p.Sex, "1 SEX "+p.Sex)
-		bd := fmt.Sprintf("%d %s %d", p.BD, c10Mon[p.BM-1], p.BY)
-		add("BIRT/DATE "+bd, "1 BIRT", "2 DATE "+bd)
-		add("BIRT/PLAC "+p.Place, "2 PLAC "+p.Place)
-		if p.DY != 0 {
-			add("DEAT/DATE "+strconv.Itoa(p.DY), "1 DEAT", "2 DATE "+strconv.Itoa(p.DY))
+		for _, f := range c10PersonFacts(p, a.Marker, v.Detail[i]) {
+			f.emit(1, "", &ls, &a.Facts)
 		}
-		if p.Occu != "" {
-			add("OCCU "+p.Occu, "1 OCCU "+p.Occu)
-		}
-		add("_MARK "+a.Marker, "1 _MARK "+a.Marker)
 		for _, rf := range fams_of[i] {
 			a.Refs = append(a.Refs, rf)
 			ls = append(ls, fmt.Sprintf("1 %s @%s@", rf[0], rf[1]))
@@ -317,9 +375,13 @@ func c10Pair(r *Rand, shape string, maxPeople int) (l, rt *c10ADoc, note string)
 	w := c10NewWorld(r, maxPeople, 1)
 	n0 := len(w.P)
 	lv := fullView(w, "L", "I", "F", nil, nil)
+	lv.Detail = map[int]uint32{}
+	for i := 0; i < n0; i++ {
+		lv.Detail[i] = uint32(r.U64())
+	}
 	left := c10Render(w, lv)
 	// the right side: drop, add, edit
-	rv := &c10View{Side: "R", IPtr: map[int]string{}, Edit: map[int]c10Person{}}
+	rv := &c10View{Side: "R", IPtr: map[int]string{}, Edit: map[int]c10Person{}, Detail: map[int]uint32{}}
 	for i := 0; i < n0; i++ {
 		if !r.Chance(3, 20) {
 			rv.People = append(rv.People, i)
@@ -337,6 +399,7 @@ func c10Pair(r *Rand, shape string, maxPeople int) (l, rt *c10ADoc, note string)
 		}
 	}
 	for _, i := range rv.People {
+		rv.Detail[i] = uint32(r.U64())
 		p := w.P[i]
 		changed := false
 		if r.Chance(1, 5) {
@@ -401,6 +464,14 @@ type c10Out struct {
 }
 
 func c10FactPaths(n gedcom.Node) (paths []string, markers []string, refs [][2]string) {
+	var walk func(k gedcom.Node, prefix string)
+	walk = func(k gedcom.Node, prefix string) {
+		path := prefix + k.Tag().Tag()
+		paths = append(paths, path+" "+k.Value())
+		for _, kk := range k.Nodes() {
+			walk(kk, path+"/")
+		}
+	}
 	for _, k := range n.Nodes() {
 		t := k.Tag().Tag()
 		switch t {
@@ -410,13 +481,7 @@ func c10FactPaths(n gedcom.Node) (paths []string, markers []string, refs [][2]st
 		case "_MARK":
 			markers = append(markers, k.Value())
 		}
-		if len(k.Nodes()) == 0 {
-			paths = append(paths, t+" "+k.Value())
-			continue
-		}
-		for _, kk := range k.Nodes() {
-			paths = append(paths, t+"/"+kk.Tag().Tag()+" "+kk.Value())
-		}
+		walk(k, "")
 	}
 	return
 }
@@ -563,6 +628,8 @@ func c10Run(c *Ctx, l, r *c10ADoc, shape, via string, minSim float64) {
 		have := map[string]bool{}
 		for _, p := range oi.Facts {
 			have[p] = true
+			// a node without a value is represented by any node on the same tag path
+			have[p[:strings.Index(p, " ")+1]] = true
 		}
 		m := ms[k]
 		if m.L >= 0 && m.R >= 0 {
